@@ -137,7 +137,7 @@ func c02Check(in c02Input) string {
 }
 
 func c02Draw(rt *rapid.T) *gen.Model {
-	m := gen.DSLModel(rt, gen.DSLOpts{Rich: true, JSONOnly: true, RestrNoThis: true, Conditions: true, MultiLine: true, MaxTypes: 3, MaxRels: 3})
+	m := gen.DSLModel(rt, gen.DSLOpts{Rich: true, JSONOnly: true, RestrNoThis: true, Conditions: true, MultiLine: true, MaxTypes: 3, MaxRels: 3, Scale: true})
 	// bias towards expressible models: with p=0.5 repair relations to at most one `this` by
 	// turning surplus direct assignments into computed usersets
 	if rapid.Bool().Draw(rt, "repair") {
